@@ -43,6 +43,13 @@ ASSUMPTIONS = [
     "callback and demanding identical observations",
 ]
 
+def ota_session(rng, version, hist):
+    """a scripted firmware update (update call, config and block requests) in a third of the histories: the callback
+    sees the node's requests as they arrived"""
+    from .c10 import session_burst
+    return session_burst(rng, version, hist) if rng.random() < 0.35 else hist
+
+
 def boundary_ids(rng, version, hist):
     """nodes at the edges of the id space (0, 253, 254, 255) and an id request after them: nodes appear through
     presentation *and* through id assignment, up to the protocol limit"""
@@ -60,7 +67,7 @@ def boundary_ids(rng, version, hist):
 
 CFG = {"quick": 200, "thorough": 5000, "persist": ["none", "none", "json", "pickle"], "lengths": [12, 25, 40],
        "bias": {"pres_node": 1.5, "pres_child": 1.5, "set": 1.3, "internal": 1.5, "idreq": 1.5}, "malformed": 0.2,
-       "post": [boundary_ids]}
+       "post": [boundary_ids, ota_session]}
 
 
 _VAL = re.compile(r" st=.*V\(\d")
